@@ -63,7 +63,7 @@ def content_states(old, new):
     return allowed
 
 
-def oracle(sb, old, new, hist_before, R):
+def oracle(sb, old, new, hist_before, R, fmap=None):
     """the four clauses on the surviving directory; returns list of problems"""
     probs = []
     now = norm(sb.snapshot())
@@ -90,8 +90,16 @@ def oracle(sb, old, new, hist_before, R):
             if not any(w == v for w in now.values()):
                 probs.append(f"symlink {p} lost")
             continue
-        # the file must exist at its old path or at some path of the new tree
-        cands = [q for q, w in now.items() if w[0] == "f" and (q == p or q in new_paths) and w[2] in legit]
+        # the file must exist, complete, at its old path, at its new path, or (a directory above it being renamed at the
+        # moment of the kill) at a mix of the two: every path component in its old or its new form
+        np = "/".join(fmap(c) for c in p.split("/")) if fmap else None
+        if np is not None and np in new and new[np][0] == "f":
+            ok_hashes = {v[2], new[np][2]}
+            pc, nc = p.split("/"), np.split("/")
+            cands = [q for q, w in now.items() if w[0] == "f" and w[2] in ok_hashes and len(q.split("/")) == len(pc)
+                     and all(c in (a, b) for c, a, b in zip(q.split("/"), pc, nc))]
+        else:
+            cands = [q for q, w in now.items() if w[0] == "f" and (q == p or q in new_paths) and w[2] in legit]
         if not cands:
             probs.append(f"file {p} lost")
     # (c) history parses and retains earlier entries
@@ -112,7 +120,9 @@ def scenario(g, i):
     a, b = g.term_pair()
     s = gen.render(a, "Snake")
     tree = [{"p": "a_" + s + ".txt", "k": "f", "c": (s + " one\nline two " + s + "\n").encode(), "m": 0o644},
-            {"p": "plain.txt", "k": "f", "c": ("x " + s + " y\n").encode(), "m": 0o600},
+            {"p": "plain.txt", "k": "f", "c": ("x " + s + " y\n").encode(), "m": [0o600, 0o444, 0o640, 0o400][i % 4]},
+            # a file without write permission takes its own path through the temp-file replacement on some platforms
+            {"p": "ro_" + s + ".cfg", "k": "f", "c": (s + " = 1\n").encode(), "m": [0o444, 0o555][i % 2]},
             {"p": "keep.txt", "k": "f", "c": b"untouched\n", "m": 0o644}]
     if i % 2 == 0:
         tree += [{"p": s + "_dir", "k": "d", "m": 0o755},
@@ -202,7 +212,7 @@ def run(R):
                                         "tree": cli.tree_json(tree), "search": search, "replace": replace})
                     except Exception as ex:
                         dis.append({"why": "model error", "resp": repr(mfs)[:300], "exc": repr(ex)})
-                probs = oracle(sb2, old, new, hist2, R)
+                probs = oracle(sb2, old, new, hist2, R, fmap=(lambda c: c.replace(replace, search)) if what == "undo" else (lambda c: c.replace(search, replace)))
                 if len(R.coverage["samples"]) < 3:
                     R.sample({"command": what, "kill_at": ev.raw[:140], "problems": probs})
                 sb2.cleanup()
